@@ -307,6 +307,12 @@ Fixpoint compare_by (b : bstate) (fs : list string) (best next : splan) : splan 
 Definition compare_plan (b : bstate) (best next : splan) : splan :=
   if plan_is_empty best then next else compare_by b Gen_C08.plan_prefs best next.
 
+(* allowLeaderAfter: allowLeader for the moment at which the plan has already moved the leader to store l - the store
+   that leads NOW is exempt from the store checks only while it keeps the leadership *)
+Definition with_leader (b : bstate) (l : Z) : bstate :=
+  upd_exec b (b_cur b) l (b_add b) (b_remove b) (b_promote b) (b_demote b) (b_steps b) (b_addstep b) (b_kleader b) (b_kregion b).
+Definition allow_leader_after (b : bstate) (o : option peer) (l : Z) : bool := allow_leader_o (with_leader b l) o false.
+
 Definition plan_replace_leaders (b : bstate) (best next : splan) : splan :=
   fold_left (fun best la =>
     if negb (allow_leader_o b (pm_get (b_cur b) la) false) then best
@@ -314,17 +320,17 @@ Definition plan_replace_leaders (b : bstate) (best next : splan) : splan :=
       let next := with_lba next la in
       let best1 := fold_left (fun best lr =>
                      if negb (lr =? ostore (p_demote next)) && negb (lr =? ostore (p_remove next))
-                        && allow_leader_o b (pm_get (b_cur b) lr) false
+                        && allow_leader_after b (pm_get (b_cur b) lr) la
                      then compare_plan b best (with_lbr next lr) else best) (pm_ids (b_cur b)) best in
       let best2 := if is_some (p_promote next)
                       && negb (ostore (p_promote next) =? ostore (p_demote next))
                       && negb (ostore (p_promote next) =? ostore (p_remove next))
-                      && allow_leader_o b (p_promote next) false
+                      && allow_leader_after b (p_promote next) la
                    then compare_plan b best1 (with_lbr next (ostore (p_promote next))) else best1 in
       if is_some (p_add next)
          && negb (ostore (p_add next) =? ostore (p_demote next))
          && negb (ostore (p_add next) =? ostore (p_remove next))
-         && allow_leader_o b (p_add next) false
+         && allow_leader_after b (p_add next) la
       then compare_plan b best2 (with_lbr next (ostore (p_add next))) else best2)
     (pm_ids (b_cur b)) best.
 
